@@ -17,6 +17,7 @@ RULE = ("Hypothesis: arbitrary relative message lists (<= 24 messages) over 2 ch
         "of waits unchanged; for paired input sounding-set equality (open-counter walk) and idempotence. Non-trivial: input "
         "contains a re-trigger, nested pair, orphan off, unclosed on or repeated signature. Distinct by case digest.")
 RULE = RULE + " Round g: control changes (controllers 120, 123, 121, 64, 7, 0) and program changes between the notes."
+RULE = RULE + " Round h: signature numerators 300/1000 and denominator 512 held by distinct int objects; velocities from a small pool."
 ASSUMPTIONS = ["which velocity a fused note keeps is not part of the statement",
                "non-note, non-signature events are not generated (their treatment is not part of the statement)"]
 TIERS = {"quick": dict(shards=8, examples=2500, alt_ppqn=[480], alt_shards=2),
@@ -31,11 +32,11 @@ def _case(draw, size=1):
     n = draw(st.integers(0, 24 * size))
     msg = st.one_of(
         st.tuples(st.just("w"), st.integers(1, 12)),
-        st.tuples(st.just("on"), st.integers(0, 1), st.sampled_from(pitches), st.integers(1, 127)),
+        st.tuples(st.just("on"), st.integers(0, 1), st.sampled_from(pitches), st.one_of(st.integers(1, 127), st.sampled_from([64, 64, 100]))),
         st.tuples(st.just("off"), st.integers(0, 1), st.sampled_from(pitches)),
-        st.tuples(st.just("on"), st.integers(0, 1), st.sampled_from(pitches), st.integers(1, 127)),
+        st.tuples(st.just("on"), st.integers(0, 1), st.sampled_from(pitches), st.one_of(st.integers(1, 127), st.sampled_from([64, 64, 100]))),
         st.tuples(st.just("off"), st.integers(0, 1), st.sampled_from(pitches)),
-        st.tuples(st.just("ts"), st.sampled_from([3, 4]), st.sampled_from([4, 8]), st.integers(0, 1)),
+        st.tuples(st.just("ts"), st.sampled_from([3, 4, 3, 4, 300, 1000]), st.sampled_from([4, 8, 4, 8, 512]), st.integers(0, 1)),
         st.tuples(st.just("ks"), st.sampled_from(["C", "G", "Db"]), st.integers(0, 1)),
         # control / program changes between the notes (incl. the 'all sound off' / 'all notes off' controller numbers): they are
         # no note events and must not change which notes sound
@@ -87,7 +88,8 @@ def _build(msgs, share=False):
         elif m[0] == "off":
             out.append(Message(message_type=MT.NOTE_OFF, channel=m[1], note=m[2]))
         elif m[0] == "ts":
-            out.append(Message(message_type=MT.TIME_SIGNATURE, channel=m[3], numerator=m[1], denominator=m[2]))
+            # (int(str(..)): every message gets its own int objects, as values parsed from a file or computed separately would be)
+            out.append(Message(message_type=MT.TIME_SIGNATURE, channel=m[3], numerator=int(str(m[1])), denominator=int(str(m[2]))))
         elif m[0] == "ks":
             out.append(Message(message_type=MT.KEY_SIGNATURE, channel=m[2], key=Key(m[1])))
         elif m[0] == "cc":
